@@ -23,6 +23,15 @@ package file
 //@   modifies nothing
 //@   loop#0 invariant sliceptr(tags) == 0 || fresh(sliceptr(tags))
 
+// merge law (C06): inOld(e) — e is one of the comment's items as they were when override was called; noKey(K) — the comment
+// does not mention key K. Quantification over raw backing-array indices: the in-place removal shifts elements.
+// NOT proved: that a mentioned key takes the comment's value (needs "every unmatched item of the comment is still in inTags",
+// an existential whose witness moves when an element in front of it is removed; the solvers do not find it). merge.from says the
+// value is the field's own or one the comment gives for that key; the bounded stand-in C06.merge decides which.
+//@ pred inOld(e file.tagItem, s0 file.tagItems) = exists(x0 Int :: {old(raw(s0, x0))} rawlo(s0) <= x0 && x0 < rawhi(s0) && old(raw(s0, x0)) == e)
+//@ pred noKey(K, s0 file.tagItems) = forall(x0 Int :: {old(raw(s0, x0))} rawlo(s0) <= x0 && x0 < rawhi(s0) ==> old(raw(s0, x0)).key != K)
+//@ pred fromOld(K, V, s0 file.tagItems) = exists(x0 Int :: {old(raw(s0, x0))} rawlo(s0) <= x0 && x0 < rawhi(s0) && old(raw(s0, x0)).key == K && old(raw(s0, x0)).value == V)
+
 //@ func (tagItems).override
 //@   requires [C06 merge.sep] sliceptr(t) != sliceptr(inTags) || len(inTags) == 0
 //@   modifies elems(inTags)
@@ -30,6 +39,16 @@ package file
 //@   loop#1 invariant (sliceptr(overridEd) == 0 || fresh(sliceptr(overridEd))) && sliceptr(inTags) == sliceptr(inTags$0) && len(inTags) <= len(inTags$0)
 //@   loop#0 invariant [C06 merge.keys] len(overridEd) == rangeindex + 1 && forall(k Int :: {overridEd[k]} 0 <= k && k <= rangeindex ==> overridEd[k].key == t[k].key)
 //@   loop#1 invariant [C06 merge.keys] len(overridEd) == i && 0 <= i && i < len(t) && forall(k Int :: {overridEd[k]} 0 <= k && k < i ==> overridEd[k].key == t[k].key)
+//@   loop#0 invariant [C06 merge.subset] rawlo(inTags) == rawlo(inTags$0) && forall(x Int :: {raw(inTags, x)} rawlo(inTags) <= x && x < rawhi(inTags) ==> inOld(raw(inTags, x), inTags$0))
+//@   loop#1 invariant [C06 merge.subset] rawlo(inTags) == rawlo(inTags$0) && forall(x Int :: {raw(inTags, x)} rawlo(inTags) <= x && x < rawhi(inTags) ==> inOld(raw(inTags, x), inTags$0))
+//@   loop#0 invariant [C06 merge.keeps] forall(k Int :: {overridEd[k]} 0 <= k && k <= rangeindex && noKey(t[k].key, inTags$0) ==> overridEd[k].value == t[k].value)
+//@   loop#1 invariant [C06 merge.keeps] forall(k Int :: {overridEd[k]} 0 <= k && k < i && noKey(t[k].key, inTags$0) ==> overridEd[k].value == t[k].value)
+//@   loop#0 invariant [C06 merge.from] forall(k Int :: {overridEd[k]} 0 <= k && k <= rangeindex ==> overridEd[k].value == t[k].value || fromOld(t[k].key, overridEd[k].value, inTags$0))
+//@   loop#1 invariant [C06 merge.from] forall(k Int :: {overridEd[k]} 0 <= k && k < i ==> overridEd[k].value == t[k].value || fromOld(t[k].key, overridEd[k].value, inTags$0))
+//@   loop#1 invariant [C06 merge.scan] forall(x Int :: {raw(inTags, x)} rawlo(inTags) <= x && x <= rawlo(inTags) + rangeindex ==> raw(inTags, x).key != t[i].key)
+//@   ensures [C06 merge.keeps] forall(k Int :: {result[k]} 0 <= k && k < len(t) && noKey(t[k].key, inTags) ==> result[k].value == t[k].value)
+//@   ensures [C06 merge.from] forall(k Int :: {result[k]} 0 <= k && k < len(t) ==> result[k].value == t[k].value || fromOld(t[k].key, result[k].value, inTags))
+//@   ensures [C06 merge.new] forall(k Int :: {result[k]} len(t) <= k && k < len(result) ==> inOld(result[k], inTags))
 //@   ensures [C06 merge.keys] len(result) >= len(t) && forall(k Int :: {result[k]} 0 <= k && k < len(t) ==> result[k].key == t[k].key)
 
 // what FindStringSubmatch returns for rComment = `@tag (.*)`: the text after the first "@tag " (trusted: the regexp's
